@@ -1,0 +1,399 @@
+//! Observation hooks for external runtime monitors.
+//!
+//! Compiled only with the `verif` cargo feature (off by default). The hooks are pure
+//! observers: they never touch lexer state. A monitor arms a thread-local report before
+//! calling `lex_program` and takes it afterwards. Work counters carry an optional budget;
+//! when a counter passes its budget the hook unwinds with a `BudgetExceeded` payload so that
+//! a non-terminating scan becomes a deterministic, replayable event instead of a hang.
+
+use std::cell::RefCell;
+use std::collections::HashSet;
+
+use super::lexer_mode::LexerMode;
+use super::token_type::TokenType;
+
+/// Upper bounds on the work counters. `u64::MAX` disables a bound.
+#[derive(Debug, Clone, Copy)]
+pub struct Budget {
+    pub main_iters: u64,
+    pub cursor_steps: u64,
+    pub tokens: u64,
+    pub errors: u64,
+    pub lines: u64,
+}
+
+impl Default for Budget {
+    fn default() -> Self {
+        Budget {
+            main_iters: u64::MAX,
+            cursor_steps: u64::MAX,
+            tokens: u64::MAX,
+            errors: u64::MAX,
+            lines: u64::MAX,
+        }
+    }
+}
+
+/// Panic payload raised when a counter passes its budget
+#[derive(Debug, Clone)]
+pub struct BudgetExceeded {
+    pub counter: &'static str,
+    pub value: u64,
+    pub mode: String,
+}
+
+/// The lexer configuration when the cursor is exhausted, before the mode stack is unwound
+#[derive(Debug, Clone, PartialEq, Eq)]
+pub struct EndOfInput {
+    /// `Debug` rendering of every mode on the stack, bottom first
+    pub modes: Vec<String>,
+    pub macro_nesting_level: u32,
+    pub pending_stat_stack: Vec<bool>,
+    pub checkpoint_live: bool,
+    pub last_token_type: Option<TokenType>,
+}
+
+impl EndOfInput {
+    /// `true` if this is the configuration the lexer starts in
+    #[must_use]
+    pub fn is_initial(&self) -> bool {
+        self.modes.len() == 1
+            && self.modes.first().is_some_and(|m| m == "Default")
+            && self.macro_nesting_level == 0
+            && self.pending_stat_stack.len() == 1
+            && self.pending_stat_stack.first() == Some(&false)
+            && !self.checkpoint_live
+    }
+}
+
+/// Everything the hooks observed during one armed call
+#[derive(Debug, Clone, Default)]
+pub struct Report {
+    pub armed: bool,
+    pub budget: Budget,
+    pub main_iters: u64,
+    pub cursor_steps: u64,
+    pub tokens: u64,
+    pub lines: u64,
+    pub errors: u64,
+    pub max_mode_depth: usize,
+    /// Distinct `(mode, next char class, checkpoint live, last token type)` keys seen
+    /// by the main loop
+    pub state_keys: HashSet<u64>,
+    /// Distinct mode codes seen by the main loop
+    pub modes_seen: HashSet<u16>,
+    pub checkpoints: u64,
+    pub clears_live: u64,
+    pub clears_idle: u64,
+    pub rollbacks: u64,
+    pub rollbacks_without_checkpoint: u64,
+    /// Errors emitted while a checkpoint was live
+    pub errors_under_checkpoint: u64,
+    /// Rollbacks that happened after at least one error was emitted under their checkpoint
+    pub rollbacks_after_error: u64,
+    /// Tokens dropped by rollbacks
+    pub tokens_rolled_back: u64,
+    /// `C` checkpoint, `X` clear of a live checkpoint, `R` rollback. First 64 decisions
+    pub decisions: String,
+    pub end_of_input: Option<EndOfInput>,
+    // private bookkeeping
+    errors_at_checkpoint: u64,
+    tokens_at_checkpoint: u64,
+    checkpoint_live: bool,
+}
+
+const MAX_STATE_KEYS: usize = 1 << 14;
+const MAX_DECISIONS: usize = 64;
+
+thread_local! {
+    static REPORT: RefCell<Report> = RefCell::new(Report::default());
+}
+
+/// Reset the thread-local report and start observing with the given budget
+pub fn arm(budget: Budget) {
+    REPORT.with(|r| {
+        *r.borrow_mut() = Report {
+            armed: true,
+            budget,
+            ..Report::default()
+        };
+    });
+}
+
+/// Stop observing and return what was seen since `arm`
+#[must_use]
+pub fn take() -> Report {
+    REPORT.with(|r| {
+        let mut rep = std::mem::take(&mut *r.borrow_mut());
+        rep.armed = false;
+        rep
+    })
+}
+
+fn exceeded(counter: &'static str, value: u64, mode: String) -> ! {
+    // Disarm first: unwinding runs no lexer code, but be defensive against re-entry
+    REPORT.with(|r| r.borrow_mut().armed = false);
+    std::panic::panic_any(BudgetExceeded {
+        counter,
+        value,
+        mode,
+    })
+}
+
+/// Stable small code for a mode: discriminant in the high byte, flag bits in the low one
+#[must_use]
+pub(super) fn mode_code(mode: &LexerMode) -> u16 {
+    let (d, f): (u16, u16) = match mode {
+        LexerMode::Default => (0, 0),
+        LexerMode::StringExpr { allow_stat } => (1, u16::from(*allow_stat)),
+        LexerMode::MakeCheckpoint => (2, 0),
+        LexerMode::WsOrCStyleCommentOnly => (3, 0),
+        LexerMode::ExpectSymbol(tt, ch) => (4, ((*tt as u16) & 0x3f) << 2 | (*ch as u16 & 3)),
+        LexerMode::ExpectSemiOrEOF => (5, 0),
+        LexerMode::MaybeMacroCallArgsOrLabel { check_macro_label } => {
+            (6, u16::from(*check_macro_label))
+        }
+        LexerMode::MaybeMacroCallArgAssign { .. } => (7, 0),
+        LexerMode::MacroCallArgOrValue { .. } => (8, 0),
+        LexerMode::MaybeMacroDefArgs => (9, 0),
+        LexerMode::MacroDefArg => (10, 0),
+        LexerMode::MacroDefNextArgOrDefaultValue => (11, 0),
+        LexerMode::MacroDefName => (12, 0),
+        LexerMode::MacroCallValue { pnl, .. } => (13, u16::from(*pnl > 0)),
+        LexerMode::MaybeTailMacroArgValue => (14, 0),
+        LexerMode::MacroStrQuotedExpr { mask_macro, pnl } => {
+            (15, u16::from(*mask_macro) << 1 | u16::from(*pnl > 0))
+        }
+        LexerMode::MacroEval {
+            macro_eval_flags,
+            pnl,
+        } => (
+            16,
+            u16::from(macro_eval_flags.float_mode())
+                | u16::from(macro_eval_flags.terminate_on_comma()) << 1
+                | u16::from(macro_eval_flags.terminate_on_stat()) << 2
+                | u16::from(macro_eval_flags.terminate_on_semi()) << 3
+                | u16::from(macro_eval_flags.parens_mask_comma()) << 4
+                | u16::from(*pnl > 0) << 5,
+        ),
+        LexerMode::MacroDo => (17, 0),
+        LexerMode::MacroLocalGlobal { is_local } => (18, u16::from(*is_local)),
+        LexerMode::MacroNameExpr(found, _) => (19, u16::from(*found)),
+        LexerMode::MacroSemiTerminatedTextExpr => (20, 0),
+        LexerMode::MacroStatOptionsTextExpr => (21, 0),
+    };
+    d << 8 | (f & 0xff)
+}
+
+fn char_class(c: char) -> u8 {
+    match c {
+        '\n' => 0,
+        c if c.is_whitespace() => 1,
+        '\'' => 2,
+        '"' => 3,
+        ';' => 4,
+        '/' => 5,
+        '&' => 6,
+        '%' => 7,
+        '0'..='9' => 8,
+        '*' => 9,
+        '(' => 10,
+        ')' => 11,
+        ',' => 12,
+        '=' => 13,
+        '.' => 14,
+        ':' => 15,
+        '$' => 16,
+        'a'..='z' | 'A'..='Z' | '_' => 17,
+        '\0' => 18,
+        c if c.is_ascii() => 19,
+        c if unicode_ident::is_xid_start(c) => 20,
+        c if unicode_ident::is_xid_continue(c) => 21,
+        _ => 22,
+    }
+}
+
+/// Called once per main-loop iteration, before the token is lexed
+pub(super) fn tick_main(
+    mode_stack: &[LexerMode],
+    next_char: char,
+    checkpoint_live: bool,
+    last_token_type: Option<TokenType>,
+) {
+    REPORT.with(|r| {
+        let mut r = r.borrow_mut();
+        if !r.armed {
+            return;
+        }
+        r.main_iters += 1;
+        r.max_mode_depth = r.max_mode_depth.max(mode_stack.len());
+
+        let mc = mode_stack.last().map_or(0xffff, mode_code);
+        r.modes_seen.insert(mc);
+
+        if r.state_keys.len() < MAX_STATE_KEYS {
+            let key = u64::from(mc) << 32
+                | u64::from(char_class(next_char)) << 24
+                | u64::from(checkpoint_live) << 16
+                | last_token_type.map_or(0xffff, |t| u64::from(t as u16));
+            r.state_keys.insert(key);
+        }
+
+        if r.main_iters > r.budget.main_iters {
+            let v = r.main_iters;
+            let mode = mode_stack.last().map_or_else(String::new, |m| format!("{m:?}"));
+            drop(r);
+            exceeded("main_iters", v, mode);
+        }
+    });
+}
+
+/// Called for every character the cursor looks at or consumes
+#[inline]
+pub(super) fn tick_cursor(n: u64) {
+    REPORT.with(|r| {
+        let mut r = r.borrow_mut();
+        if !r.armed {
+            return;
+        }
+        r.cursor_steps += n;
+        if r.cursor_steps > r.budget.cursor_steps {
+            let v = r.cursor_steps;
+            drop(r);
+            exceeded("cursor_steps", v, String::new());
+        }
+    });
+}
+
+/// Called for every token added to (or inserted into) the work buffer
+#[inline]
+pub(super) fn tick_token() {
+    REPORT.with(|r| {
+        let mut r = r.borrow_mut();
+        if !r.armed {
+            return;
+        }
+        r.tokens += 1;
+        if r.tokens > r.budget.tokens {
+            let v = r.tokens;
+            drop(r);
+            exceeded("tokens", v, String::new());
+        }
+    });
+}
+
+/// Called for every line added to the work buffer
+#[inline]
+pub(super) fn tick_line() {
+    REPORT.with(|r| {
+        let mut r = r.borrow_mut();
+        if !r.armed {
+            return;
+        }
+        r.lines += 1;
+        if r.lines > r.budget.lines {
+            let v = r.lines;
+            drop(r);
+            exceeded("lines", v, String::new());
+        }
+    });
+}
+
+/// Called for every error appended to the error list
+pub(super) fn tick_error(checkpoint_live: bool) {
+    REPORT.with(|r| {
+        let mut r = r.borrow_mut();
+        if !r.armed {
+            return;
+        }
+        r.errors += 1;
+        if checkpoint_live {
+            r.errors_under_checkpoint += 1;
+        }
+        if r.errors > r.budget.errors {
+            let v = r.errors;
+            drop(r);
+            exceeded("errors", v, String::new());
+        }
+    });
+}
+
+fn push_decision(r: &mut Report, d: char) {
+    if r.decisions.len() < MAX_DECISIONS {
+        r.decisions.push(d);
+    }
+}
+
+pub(super) fn ev_checkpoint() {
+    REPORT.with(|r| {
+        let mut r = r.borrow_mut();
+        if !r.armed {
+            return;
+        }
+        r.checkpoints += 1;
+        r.checkpoint_live = true;
+        r.errors_at_checkpoint = r.errors;
+        r.tokens_at_checkpoint = r.tokens;
+        push_decision(&mut r, 'C');
+    });
+}
+
+pub(super) fn ev_clear(was_live: bool) {
+    REPORT.with(|r| {
+        let mut r = r.borrow_mut();
+        if !r.armed {
+            return;
+        }
+        if was_live {
+            r.clears_live += 1;
+            push_decision(&mut r, 'X');
+        } else {
+            r.clears_idle += 1;
+        }
+        r.checkpoint_live = false;
+    });
+}
+
+pub(super) fn ev_rollback(had_checkpoint: bool, tokens_before: u32, tokens_after: u32) {
+    REPORT.with(|r| {
+        let mut r = r.borrow_mut();
+        if !r.armed {
+            return;
+        }
+        if had_checkpoint {
+            r.rollbacks += 1;
+            if r.errors > r.errors_at_checkpoint {
+                r.rollbacks_after_error += 1;
+            }
+            r.tokens_rolled_back += u64::from(tokens_before.saturating_sub(tokens_after));
+            push_decision(&mut r, 'R');
+        } else {
+            r.rollbacks_without_checkpoint += 1;
+        }
+        r.checkpoint_live = false;
+    });
+}
+
+/// Called when the cursor is exhausted, before `finalize_lexing`
+pub(super) fn snapshot_eoi(
+    mode_stack: &[LexerMode],
+    macro_nesting_level: u32,
+    pending_stat_stack: &bit_vec::BitVec,
+    checkpoint_live: bool,
+    last_token_type: Option<TokenType>,
+) {
+    REPORT.with(|r| {
+        let mut r = r.borrow_mut();
+        if !r.armed {
+            return;
+        }
+        r.max_mode_depth = r.max_mode_depth.max(mode_stack.len());
+        r.end_of_input = Some(EndOfInput {
+            modes: mode_stack.iter().map(|m| format!("{m:?}")).collect(),
+            macro_nesting_level,
+            pending_stat_stack: pending_stat_stack.iter().collect(),
+            checkpoint_live,
+            last_token_type,
+        });
+    });
+}
